@@ -34,5 +34,18 @@ claim("C10", "lock-region dataflow on go/cfg per method, held-at-entry fixpoint 
       "Receivers are assumed not aliased within a method; callbacks are assumed not to re-enter the queue; races on stored interface values and across two instances (m.PutAll(m)) are out of scope. Unsynchronised Size()/GetFirst/GetLast are genuine data races recorded as known findings.",
       "DESIGN.md §3 C10")
 
-for pid in ["C04","C06","C09","C11","C12","C13","C14","C15","C16","C17","C18","C19","C20"]:
+claim("C09", "bounded path enumeration over the AST (events abstracted from statements, mode switches folded, loops 0/1) + predicates over all paths; sibling types checked by one rule table",
+      "Decides the structural invariants of the ported algorithm uniformly over the 13 linked collections and every PUT_MODE: new-key paths insert once in front of the current bucket head, link once at the mode's end and count once; with a maximum they evict from the opposite end in a count>=max loop before inserting and never on an update; growth is tested before inserting and table/index are recomputed after rehash; updates never change size; removal unlinks once; rehash re-buckets every old bucket with the lookup hash (or the hash cached from it at insertion); whole-table walks cover 0..len-1; enumerators carry the discriminator that their NextElement tests; Sort re-inserts at the tail; bucket indices are non-negative. Each is a necessary condition whose violation changes observable behaviour.",
+      "Equivalence with a reference dictionary over histories is NOT decided; chain/unchain surgery is checked only through its call shape; comparators passed to Sort are the caller's.",
+      "DESIGN.md §3 C09")
+claim("C11", "bounded path enumeration over the AST (events abstracted from statements, mode switches folded, loops 0/1) + predicates over all paths; sibling types checked by one rule table",
+      "Decides for both request queues, over every path of every method: put adds only with room and otherwise refuses (callback nil-guarded, false, content unchanged); forced put evicts the oldest in a loop while size>=capacity, hands each evicted element to the nil-guarded overflow callback, then adds; every add is followed by a wake-up; blocking get waits in a loop on emptiness and removes the head afterwards; get-no-wait never waits; tail insertion / head removal only; the double queue serves queue 1 first; timed get gives up only when deadline-now <= 0.",
+      "Exactly-once delivery under concurrency, absence of lost wake-ups as a liveness fact and timing accuracy are not decided; the mutex discipline is C10's, the list shapes C13's.",
+      "DESIGN.md §3 C11")
+claim("C12", "bounded path enumeration over the AST (events abstracted from statements, mode switches folded, loops 0/1) + predicates over all paths; sibling types checked by one rule table; wire-grammar agreement for the serialised form",
+      "Decides for IntIntMap, IntKeyMap, IntSet and StringSet the same structural invariants as C09 without the order list (insert/update/growth/remove/rehash/walk coverage/non-negative bucket index), that table enumerators start at len(table) and advance with decrement-before-use down to bucket 0, and that IntIntMap.ToBytes~ToObject agree on the layout.",
+      "Equivalence with the mathematical map/set over histories is not decided.",
+      "DESIGN.md §3 C12")
+
+for pid in ["C04","C06","C13","C14","C15","C16","C17","C18","C19","C20"]:
     na(pid, "checker not built yet in this round (planned static clauses in DESIGN.md §3); not claimed until the rule is armed and tested")
